@@ -4,7 +4,7 @@
 import os
 from typing import Optional
 
-from antlr4 import FileStream, CommonTokenStream
+from antlr4 import FileStream, CommonTokenStream, Token
 from antlr4.error.ErrorListener import ErrorListener
 from .mal_lexer import malLexer
 from .mal_parser import malParser
@@ -64,6 +64,16 @@ class MalCompiler:
             parser.removeErrorListeners()
             parser.addErrorListener(error_listener)
             tree = parser.mal()
+
+            # The start rule does not end with EOF, the parser simply stops
+            # in front of the first token that cannot begin a declaration.
+            # Whatever is left over is a syntax error, not the end of file.
+            leftover = stream.LT(1)
+            if leftover.type != Token.EOF:
+                raise MalCompilerError(
+                    f'{self.current_file}:{leftover.line}:{leftover.column}: '
+                    f'syntax error: unexpected input \'{leftover.text}\''
+                )
 
             return malVisitor(compiler=self).visit(tree)
         finally:
